@@ -46,7 +46,7 @@ REQUIRED_PROBES = ['n_%d' % k for k in range(2, 9)] + [
     'refund_after_timeout', 'refund_before_timeout', 'cascade_completed',
     'corrupt_adapter_rejected', 'corrupt_publication_rejected', 'view_corrupted_probe',
     'same_seed_other_length', 'seedless_setup', 'partial_refund_keys',
-    'sibling_seed_beyond_32_bytes']
+    'sibling_seed_beyond_32_bytes', 'refund_map_names_foreign_keys']
 RTO = 400           # ms, retransmission timeout of the party stubs
 BASE = 20           # ms, base one-way latency
 HORIZON = 120_000   # ms of simulated time per run at most
@@ -68,6 +68,7 @@ def gen_plan(run_seed, idx, tier):
                        'form': rng.choice(LOCK_FORMS), 'limits': rng.below(len(LIMITS)),
                        'style': rng.choice(ARG_STYLES),
                        'sa_plus_kL': rng.choice([0, 0, 0, 0, 0, 1, 3, 7]),
+                       'refund_map_wider': rng.chance(1, 3),
                        'witness_as': rng.choice(['bytes', 'bytes', 'object']),
                        # claimants may publish sig || 00 where no flag is needed: the
                        # lock accepts it, and it is what the left neighbour then reads
@@ -210,6 +211,12 @@ class Chain:
             if self.rhops != set(range(self.n)):
                 run.probe('partial_refund_keys')
         refunds = {self.pks[i]: self.rpks[i] for i in sorted(self.rhops)} if spec['refund'] else None
+        if refunds is not None and spec.get('refund_map_wider') and len(self.pks) > self.n:
+            # the map was made for a longer route / is the wallet's registry: it also names
+            # keys that pay nothing on this route (documented: such entries are ignored)
+            for j in range(self.n, len(self.pks)):
+                refunds[self.pks[j]] = self.rpks[j]
+            run.probe('refund_map_names_foreign_keys')
         self.refunds_arg = refunds
         CLOCK.begin_call('P0')
         try:
